@@ -582,7 +582,8 @@ impl C06 {
         }
         k = if rng.chance(1, 6) { 1 + rng.usize(3) } else { 2 };
         let n = 2 + rng.usize(5);
-        lines.push(format!("create f={} {}", 1 + rng.usize(3), rows(rng, k, n, &mut next_key)));
+        let n = n + rng.usize(3);
+        lines.push(format!("create f={} {}", 1 + rng.usize(5), rows(rng, k, n, &mut next_key)));
         kver.push(k);
         let len = match tier {
             Tier::Quick => 5 + rng.usize(7),
@@ -600,7 +601,7 @@ impl C06 {
             let mut line = match rng.below(34) {
                 0..=3 => {
                     let n = 1 + rng.usize(3);
-                    format!("append f={} {}", 1 + rng.usize(3), rows(rng, k, n, &mut next_key))
+                    format!("append f={} {}", 1 + rng.usize(4), rows(rng, k, n, &mut next_key))
                 }
                 4 => {
                     has_index = false;
@@ -666,7 +667,7 @@ impl C06 {
                     let t = if tags.is_empty() { "t9".to_string() } else { tags.remove(rng.usize(tags.len())) };
                     format!("untag {t}")
                 }
-                28..=30 => format!("cleanup ~{} {} {}", rng.usize(4), rng.chance(1, 2) as u8, rng.chance(1, 5) as u8),
+                28..=30 => format!("cleanup ~{} {} {}", rng.usize(3), rng.chance(2, 3) as u8, rng.chance(1, 5) as u8),
                 31 => {
                     let b = format!("b{}", rng.usize(2));
                     if !branches.contains(&b) {
@@ -774,9 +775,39 @@ impl Prop for C06 {
             // file modification times are compared with manifest timestamps by cleanup (`unmodified_since`); the kernel
             // stamps files with a coarse clock, so operations are kept more than one tick apart
             std::thread::sleep(std::time::Duration::from_millis(12));
-            let outcome = self.kit.block_on(do_op(cfg, &op, &uri, &branches));
-            res.tags.push(format!("op:{}", op.kind()));
             let mut fails: Vec<(String, String)> = vec![];
+            let outcome = match &op {
+                // the two commits of `sdelete` are run one after the other so that the version the first one publishes
+                // is snapshotted BEFORE the rebased second commit (which rewrites a deletion file of the same fragment)
+                Op::SDelete(x, y) => {
+                    let first = self.kit.block_on(async {
+                        let ds = open(&uri, None, Arc::new(Session::default())).await?;
+                        let latest = ds.manifest().version;
+                        let stale = open(&uri, Some(latest), Arc::new(Session::default())).await?;
+                        let mut ds = ds;
+                        ds.delete(&format!("c0 >= {y}")).await?;
+                        Ok::<_, lance::Error>((stale, ds.manifest().version))
+                    });
+                    match first {
+                        Err(e) => Err(OpErr::Lance(e)),
+                        Ok((mut stale, v1)) => {
+                            match read_at(&self.kit, &uri, v1, Arc::new(Session::default())) {
+                                Ok(r) => {
+                                    snaps.insert(v1, r.snapshot);
+                                }
+                                Err(e) => fails.push(("unreadable".into(), format!("version {v1} cannot be read right after its commit: {e}"))),
+                            }
+                            let filter = format!("c0 >= {x} AND c0 < {y}");
+                            match self.kit.block_on(stale.delete(&filter)) {
+                                Ok(_) => Ok(Done::Version(stale.manifest().version)),
+                                Err(e) => Err(OpErr::Lance(e)),
+                            }
+                        }
+                    }
+                }
+                _ => self.kit.block_on(do_op(cfg, &op, &uri, &branches)),
+            };
+            res.tags.push(format!("op:{}", op.kind()));
             let shown = match &outcome {
                 // what a write on a branch answers is C09's business (cleanup on main may have broken the branch: known
                 // finding cleanup_main_breaks_branch); here it only has to leave main alone
